@@ -7,8 +7,8 @@ Model `M` = `CbiVerif.MX.cbiExpand` (the step machine the driver executes).  Ref
 `Props/C03FunLike.lean` with the substituted replacement list given by the model of `MacroFunction.replace` itself
 (`MX.replaceFn`: the `#` / `##` pass `strcatPass`, then `substArgs`), applied to the argument list `process_args` builds (an
 argument that is only an operand of `#` / `##` is not macro-expanded).  No hypothesis about the table is left: any mix of
-object-like macros and function-like macros with `#`, `##` (chains, empty operands, multi-token operands), stringification
-quirks (finding D10) included — they are part of `replaceFn`; variadic macros may be defined but not called.
+object-like macros and function-like macros with `#`, `##` (chains, empty operands, multi-token operands; `#` as repaired for
+finding D10, see `Props/C03Stringify.lean`) — they are part of `replaceFn`; variadic macros may be defined but not called.
 
 * `strcat_partial` — model = `RefS` on the decidable fragment `fitsbS` (every enabled function-like macro name met during the run
   is followed, in the same token list, by a complete call on which `replaceFn` succeeds, or by a token other than `(`; no
@@ -71,24 +71,18 @@ example : inStrcatFragment ["CAT(a,b) a##b", "CAT3(a,b,c) q a##b##c", "N 3", "N1
 example : inStrcatFragment ["M(x,y) #x x##y x", "k 5"] "M(k, 2) M(a b, c)" 3
     ["\"k\"", "k2", "5", "\"a b\"", "a", "bc", "a", "b"] = true := by decide +kernel
 
-/-- coarse exclusion of finding D10 (white space / character constants inside stringified text): no character constant, and no
-    token with preceding white space directly after a `(` or `,` (so no call argument starts with a blank) -/
-def noD10b : List Tok → Bool
-  | x :: y :: r => x.kind != .chr && !((dtext x == "(" || dtext x == ",") && y.pw) && noD10b (y :: r)
-  | [x] => x.kind != .chr
-  | [] => true
-
 /-- **what remains open** for macros with `#` / `##` (kept visible, not claimed): on the syntactic fragment "simple" with `#` / `##`
     allowed in replacement lists (macros keyed by name, no function-like macro name in a replacement list; every call in the text
-    complete, with exactly as many arguments as parameters, arguments without macro names), finding D10 kept outside by the
-    explicit predicate `noD10b`, whatever the specification assigns is what the machine produces.  By `strcat_partial` what is
+    complete, with exactly as many arguments as parameters, arguments without macro names) whatever the specification assigns is what the machine produces (finding D10 being repaired, no
+    exclusion of white space or character constants in `#` operands is left; `Props/C03Stringify.lean` has the statements about
+    `stringify` itself).  By `strcat_partial` what is
     missing is a statement about the non-recursive function `replaceFn` against `Spec.Prosser.subst` (it needs the two lexers to
     agree on pasted and stringified spellings), plus the hide-set bookkeeping of `Lemmas/MacroFunSpecB.lean` for tokens made by
     `#` / `##`. -/
 def StrcatConformsFull : Prop :=
   ∀ (tbl : Table) (ts : List Tok) (out : List CbiVerif.Spec.Prosser.T),
     (∀ n m, tbl.get n = some m → m.name = n ∧ m.variadic = false ∧ ∀ t ∈ m.replacement, ObjTok tbl t) →
-    simpleText tbl ts = true → exactArity tbl ts = true → noD10b ts = true →
+    simpleText tbl ts = true → exactArity tbl ts = true →
     CbiVerif.Spec.Prosser.prosserToks (specTableF tbl) (ts.map (toSpec [])) = .ok out →
     ∃ r, cbiExpand tbl ts = .ok r ∧ r.map spellTok = out.map (·.text)
 
